@@ -92,12 +92,15 @@ RoundTrips(v) == \A m \in Members(v.cls) : Count(v, m) > 0 => m \in Emitted(v) /
 (***************************************************************************)
 Checked == {"dateTime", "boolean", "integer", "nonNegativeInteger", "positiveInteger", "unsignedShort", "duration",
             "unsignedByte", "unsignedInt", "unsignedLong"}
+\* lexical forms that are not in the type's lexical space although a lenient number reader takes them: two signs ("+-128"),
+\* digit-group underscores ("1_000"), digits of another script
+Lenient == {"multisign", "underscore", "otherdigits"}
 WrongOf(t) == CASE t = "dateTime" -> {"text", "badfields", "trailing", "dateonly"}
                 [] t = "boolean" -> {"text"}
-                [] t \in {"integer"} -> {"text", "fraction"}
-                [] t = "nonNegativeInteger" -> {"text", "negative"}
-                [] t = "positiveInteger" -> {"text", "zero"}
-                [] t \in {"unsignedShort", "unsignedByte", "unsignedInt", "unsignedLong"} -> {"text", "negative", "toobig"}   \* toobig: 2^bits
+                [] t \in {"integer"} -> {"text", "fraction"} \cup Lenient
+                [] t = "nonNegativeInteger" -> {"text", "negative"} \cup Lenient
+                [] t = "positiveInteger" -> {"text", "zero"} \cup Lenient
+                [] t \in {"unsignedShort", "unsignedByte", "unsignedInt", "unsignedLong"} -> {"text", "negative", "toobig"} \cup Lenient  \* toobig: 2^bits
                 [] t = "duration" -> {"text"}
                 [] OTHER -> {}
 TextType(c) == LET b == Table[c].text_base IN
